@@ -82,10 +82,33 @@ def pgen_cli_case(ctx, k):
     return Case({"kind": "pgen-cli", "spec": spec, "hash_ws": opts["hash_ws"]}, [], [], mon, True)
 
 
+def collision_corpus():
+    """the witnesses of the known finding C08-name-collision, run first on every run: joined label
+    strings that cannot be told apart, a label without the value marker, a step named like an instance"""
+    def spec(params, steps):
+        return {"description": {"name": "collide", "description": "instance names that collide"},
+                "global.parameters": params,
+                "study": [{"name": n, "description": n, "run": dict(cmd=c, **({"depends": d} if d else {}))}
+                          for n, c, d in steps]}
+    return [
+        spec({"A": {"values": ["1.2", "1"], "label": "%%"}, "B": {"values": ["3", "2.3"], "label": "%%"}},
+             [("pa", "echo $(A)", []), ("both", "echo $(A) $(B)", ["pa"])]),
+        spec({"A": {"values": [1, 2], "label": "A"}}, [("pa", "echo $(A)", [])]),
+        spec({"A": {"values": [1, 2], "label": "A.%%"}},
+             [("pa", "echo $(A)", []), ("pa_A.1", "echo flat", [])]),
+    ]
+
+
 def run(ctx, escalated=False):
     quick = ctx.tier == "quick" and not escalated
     n = 700 if quick else 20000
     cases = []
+    for j, sp in enumerate(collision_corpus()):
+        c = expprop.one_case(ctx, "cx%d" % j, adversarial=False, monitor=monitor, spec=sp, hash_ws=False,
+                             pgen=False)
+        if c is not None:
+            cases.append(c)
+            ctx.count("collision-corpus")
     for k in range(30 if quick else 600):
         c = pgen_cli_case(ctx, k)
         if c is not None:
